@@ -22,8 +22,9 @@ RULES = {
     'R11': 'trie notifier add and delete resolve the key the same way (exact lookup)',
     'R12': 'looking a key up does not change the map: the lookup/get functions of all three implementations store to no map or node field and call no list mutator, allocator or release function (an iteration in progress follows those links)',
     'R13': 'a notifier is not looked at after its callback was called: in every loop that walks a notifier list and calls the callbacks, no field of the notifier and no link of its list element is read on the way from the call to the next iteration (the callback may have unregistered - freed - its own notifier); the trie, whose notifiers are reference counted, holds a reference instead',
+    'R14': 'the removal marker goes with the entry: a trie node can outlive its entry (as an inner node, or because notifiers are registered on it), so the function that takes the entry out of a node (stores no value into it) leaves the node unmarked on every path - a node left marked as removed is taken by the next put of that key for an entry that parked iterators still hold: DELETED and FREE are announced for a key and a value that do not exist',
 }
-FLOORS = {'R1': 3, 'R2': 6, 'R3': 6, 'R4': 6, 'R5': 9, 'R6': 3, 'R7': 4, 'R8': 3, 'R9': 1, 'R10': 3, 'R11': 1, 'R12': 6, 'R13': 4}
+FLOORS = {'R1': 3, 'R2': 6, 'R3': 6, 'R4': 6, 'R5': 9, 'R6': 3, 'R7': 4, 'R8': 3, 'R9': 1, 'R10': 3, 'R11': 1, 'R12': 6, 'R13': 4, 'R14': 1}
 
 MAPS = {
     'hashtable': dict(file='lib/hashtable.c', create='qb_hashtable_create', rm='hashtable_rm_with_hash', put='hashtable_put',
@@ -68,6 +69,7 @@ def run(ctx):
     r10(ctx)
     r11(ctx)
     r12(ctx)
+    r14(ctx)
 
 
 def _present_atom(name, f, node_vars):
@@ -594,3 +596,26 @@ def r13(ctx):
                           fname, '; '.join(sorted({'%s@%d' % (h[0].kind, h[0].ln) for h in hits}))[:120]))
     if n < 4:
         raise AnalysisBroken('R13: only %d callback sites in notifier loops' % n)
+
+
+def r14(ctx):
+    prog = ctx.prog
+    n = 0
+    for f in prog.all_fns(files={'lib/trie.c'}):
+        clears = [st for st in f.events('STORE') if last_field(st.lhs) == ('trie_node', 'value') and st.d['op'] == '=' and cval(unwrap(st.rhs)) == 0]
+        for st in clears:
+            node = estr(unwrap(st.lhs)['b']) if unwrap(st.lhs).get('k') == 'mem' else None
+
+            def unmark(ev, node=node):
+                return ev.kind == 'STORE' and last_field(ev.lhs) == ('trie_node', 'removed') and cval(unwrap(ev.rhs)) == 0 and \
+                    (node is None or estr(unwrap(ev.lhs)['b']) == node)
+            # the marker is cleared before or after the value, on every path through the store
+            before = any(unmark(ev) and f.ev_dominates(ev, st) for ev in f.events('STORE'))
+            after, _p = f.must_pass(('after', st), unmark)
+            n += 1
+            ctx.check('R14', '%s:entry-taken-out-leaves-node-unmarked' % f.name, before or after, st,
+                      '%s clears the removal marker of the node it takes the entry out of' % f.name,
+                      '%s takes the entry out of a node (value = NULL) and can return with the node still marked as removed: if the node stays (inner node, notifiers) the next put of its key announces DELETED / FREE for an entry that does not exist'
+                      % f.name)
+    if n == 0:
+        raise AnalysisBroken('R14: no function of trie.c takes an entry out of a node')
